@@ -437,15 +437,22 @@ func (b *countingBody) Close() error {
 
 // inprocHTTP serves requests by calling the bridge directly and counts body closes.
 type inprocHTTP struct {
-	h      http.Handler
-	n      int
-	closed []*int
+	h         http.Handler
+	n         int
+	closed    []*int
+	badStatus int // if non-zero, the first request is answered with this status and a non-JSON body
 }
 
 func (c *inprocHTTP) Do(req *http.Request) (*http.Response, error) {
 	vs.Yield("http do")
 	w := httptest.NewRecorder()
-	c.h.ServeHTTP(w, req)
+	if c.badStatus != 0 && c.n == 0 {
+		io.Copy(io.Discard, req.Body)
+		w.WriteHeader(c.badStatus)
+		w.WriteString("upstream failure")
+	} else {
+		c.h.ServeHTTP(w, req)
+	}
 	res := w.Result()
 	c.n++
 	cnt := new(int)
@@ -456,9 +463,10 @@ func (c *inprocHTTP) Do(req *http.Request) (*http.Response, error) {
 }
 
 type c19W struct {
-	Name  string
-	Close bool // Close races with the operations
-	Ops   []string
+	Name      string
+	Close     bool // Close races with the operations
+	Ops       []string
+	BadStatus int // the first HTTP request is answered with this status instead of reaching the bridge
 }
 
 func c19Channel(w c19W, b Bounds) *Scenario {
@@ -471,7 +479,7 @@ func c19Channel(w c19W, b Bounds) *Scenario {
 			body := func() {
 				var tags []string
 				br := newBridge(&tags, false)
-				hc = &inprocHTTP{h: br}
+				hc = &inprocHTTP{h: br, badStatus: w.BadStatus}
 				ch := jhttp.NewChannel("http://bridge/", &jhttp.ChannelOptions{Client: hc})
 				cli := jrpc2.NewClient(ch, nil)
 				var j Join
@@ -526,7 +534,7 @@ func c19Channel(w c19W, b Bounds) *Scenario {
 					}
 					e := x.Log[ri]
 					failed := (op != "unknown" && e.Arg(3) != "<nil>")
-					if failed && !w.Close {
+					if failed && !w.Close && w.BadStatus == 0 {
 						v = append(v, Viol{"C19.R6", fmt.Sprintf("%s over the HTTP channel failed: %s", op, e.Arg(3))})
 						continue
 					}
@@ -545,7 +553,7 @@ func c19Channel(w c19W, b Bounds) *Scenario {
 							v = append(v, Viol{"C19.R6", fmt.Sprintf("batch returned %q, want %q", e.Arg(2), `"`+tag+`"`)})
 						}
 					case "unknown":
-						if e.Arg(3) != "-32601" && !w.Close {
+						if e.Arg(3) != "-32601" && !w.Close && w.BadStatus == 0 {
 							v = append(v, Viol{"C19.R6", "unknown method over HTTP gave code " + e.Arg(3)})
 						}
 					}
@@ -588,6 +596,10 @@ func c19Scenarios(tier string) []*Scenario {
 		c19Channel(c19W{Name: "notify racing Close", Ops: []string{"notify"}, Close: true}, b1),
 		c19Channel(c19W{Name: "two calls", Ops: []string{"call", "call"}}, b2),
 		c19Channel(c19W{Name: "two calls racing Close", Ops: []string{"call", "call"}, Close: true}, b2),
+		c19Channel(c19W{Name: "call answered with HTTP 500", Ops: []string{"call"}, BadStatus: 500}, b1),
+		c19Channel(c19W{Name: "notify answered with HTTP 404, then a call", Ops: []string{"notify", "call"}, BadStatus: 404}, b1),
+		c19Channel(c19W{Name: "call answered with HTTP 500 racing Close", Ops: []string{"call"}, Close: true, BadStatus: 500}, b1),
+		c19Channel(c19W{Name: "call answered with HTTP 204 (no content)", Ops: []string{"call"}, Close: true, BadStatus: 204}, b1),
 	)
 	return out
 }
